@@ -118,32 +118,34 @@ Proof. exact moves_forgetful_partial. Qed.
 
 (** ... lifted to the whole cleanup for the restore direction: a FAILED restore drops the repository completely.
     If the rename of any trashed shard of an assigned repository in [trash_keys] fails (the first, the second, any
-    later one — [any_fail]) then after cleanup_f NO file with the name of any of its trashed simple shards [t] exists,
-    neither in the index nor in the trash ([no_name]): never a strict subset of its shards live in the index, never a
-    partial copy left in the trash.  (Its shards: distinct simple shard files.  Together with
+    later one — [any_fail_simple]: only simple shards are renamed) then after cleanup_f NO file with the name of any of
+    its trashed simple shards [t] exists, neither in the index nor in the trash ([no_name]): never a strict subset of
+    its shards live in the index, never a partial copy left in the trash.  (Its shard files have distinct names; compound
+    entries in the list are allowed: moveAll deletes them in place and they do not disturb the rest.  Together with
     [C32_assigned_restored_from_trash_other_renames_may_fail]: restored completely when none of its renames fails.)
     No duplicate-freeness of [repos] is needed here. *)
 Theorem C32_failed_restore_drops_whole_repository : forall d repos now sm mvfail t e id,
   wf d -> wf_trash d -> In t (d_trash d) -> alive_entries t = [e] -> e_id e = id ->
   In id repos -> In id (trash_keys d now) ->
-  (forall s, In s (group (get_shards (d_trash d)) id) -> s_compound s = false) ->
+  f_compound t = false ->
   NoDup (map s_base (group (get_shards (d_trash d)) id)) ->
-  any_fail mvfail true (group (get_shards (d_trash d)) id) = true ->
+  any_fail_simple mvfail true (group (get_shards (d_trash d)) id) = true ->
   (forall g, In g (d_index (cleanup_f d repos now sm mvfail)) -> f_base g <> f_base t) /\
   (forall g, In g (d_trash (cleanup_f d repos now sm mvfail)) -> f_base g <> f_base t).
 Proof. intros. eapply failed_restore_drops_all; eauto. Qed.
 Print Assumptions C32_failed_restore_drops_whole_repository.
 
 Example C32_failed_restore_nonvacuous :
-  In 7%N (trash_keys aon_dir 0) /\ any_fail aon_fail2 true (group (get_shards (d_trash aon_dir)) 7) = true /\
-  any_fail aon_fail2 true (firstn 1 (group (get_shards (d_trash aon_dir)) 7)) = false /\
+  In 7%N (trash_keys aon_dir 0) /\ any_fail_simple aon_fail2 true (group (get_shards (d_trash aon_dir)) 7) = true /\
+  any_fail_simple aon_fail2 true (firstn 1 (group (get_shards (d_trash aon_dir)) 7)) = false /\
   cleanup_f aon_dir [7%N] 0 true aon_fail2 = mkD [] [] 0 /\
   map f_base (d_index (cleanup_f aon_dir [7%N] 0 true (fun _ _ => false))) = [1%N; 2%N; 3%N].
 Proof. vm_compute. repeat split; try reflexivity. left. reflexivity. Qed.
 
 (** ... and for the trashing direction: an UNASSIGNED, consistently named repository whose simple shards cleanup
     moves to the trash ([G] = the shards moveAll is given: all of them, minus the compound ones when shardMerging is on;
-    here: all simple, distinct names) and for which ANY of these renames fails ends up with no file of any of its
+    distinct file names; with shardMerging off [G] may contain compound shards, which moveAll tombstones or removes in
+    place) and for which the rename of ANY of its simple shards fails ends up with no file of any of its simple
     shards' names [g0] anywhere: not in the index and not in the trash — no partial copy that a later cleanup would
     restore as a partial repository.  (The trash holds only shards with a live repository, as moveAll puts them
     there; a conflicting trashed copy is removed by the first phase.) *)
@@ -152,7 +154,7 @@ Theorem C32_failed_trashing_drops_whole_repository : forall d repos now sm mvfai
   In g0 (d_index d) -> f_compound g0 = false -> In e (alive_entries g0) -> e_id e = id ->
   ~ In id repos -> consistent (group (get_shards (d_index d)) id) = true ->
   let G := filter (fun s => negb (sm && s_compound s)) (group (get_shards (d_index d)) id) in
-  (forall s, In s G -> s_compound s = false) -> NoDup (map s_base G) -> any_fail mvfail false G = true ->
+  NoDup (map s_base G) -> any_fail_simple mvfail false G = true ->
   (forall g, In g (d_index (cleanup_f d repos now sm mvfail)) -> f_base g <> f_base g0) /\
   (forall g, In g (d_trash (cleanup_f d repos now sm mvfail)) -> f_base g <> f_base g0).
 Proof. intros. eapply failed_trashing_drops_all; eauto. Qed.
@@ -160,9 +162,20 @@ Print Assumptions C32_failed_trashing_drops_whole_repository.
 
 Definition ex_trashing_dir : dir := mkD [aon_f 1; aon_f 2; aon_f 3; mkF 9 false 0 [mkE 8 8 false 0]] [] 0.
 Example C32_failed_trashing_nonvacuous :
-  any_fail aon_fail2 false (filter (fun s => negb (true && s_compound s)) (group (get_shards (d_index ex_trashing_dir)) 7)) = true /\
+  any_fail_simple aon_fail2 false (filter (fun s => negb (true && s_compound s)) (group (get_shards (d_index ex_trashing_dir)) 7)) = true /\
   cleanup_f ex_trashing_dir [8%N] 0 true aon_fail2 = mkD [mkF 9 false 0 [mkE 8 8 false 0]] [] 0 /\
   map f_base (d_trash (cleanup_f ex_trashing_dir [8%N] 0 true (fun _ _ => false))) = [1%N; 2%N; 3%N].
+Proof. vm_compute. repeat split; reflexivity. Qed.
+
+(** the same with shardMerging OFF and a compound shard in moveAll's list: the unassigned repository 7 has three simple
+    shards and is alive in compound shard 5 together with the assigned repository 8; the rename of its second simple
+    shard fails: its simple shards are gone from index and trash, it is tombstoned in the compound shard, 8 untouched *)
+Definition ex_trashing_mixed : dir :=
+  mkD [aon_f 1; aon_f 2; aon_f 3; mkF 5 true 0 [mkE 7 7 false 0; mkE 8 8 false 0]] [] 0.
+Example C32_failed_trashing_mixed_nonvacuous :
+  map s_base (filter (fun s => negb (false && s_compound s)) (group (get_shards (d_index ex_trashing_mixed)) 7)) = [1; 2; 3; 5]%N /\
+  any_fail_simple aon_fail2 false (filter (fun s => negb (false && s_compound s)) (group (get_shards (d_index ex_trashing_mixed)) 7)) = true /\
+  cleanup_f ex_trashing_mixed [8%N] 0 false aon_fail2 = mkD [mkF 5 true 0 [mkE 7 7 true 0; mkE 8 8 false 0]] [] 0.
 Proof. vm_compute. repeat split; reflexivity. Qed.
 
 (** unassigned_not_searchable_after: for every well-formed directory, every assigned set and both settings
